@@ -41,7 +41,13 @@ import (
 	"github.com/mgtv-tech/redis-GunYu/syncer"
 )
 
-var schedKinds = []string{"none", "moved-between", "moved-mid", "ask", "back-forth", "node-added", refreshMidBuild, connReset, connLost, abandonedWorker, crossNode}
+var schedKinds = []string{"none", "moved-between", "moved-mid", "ask", "back-forth", "node-added", refreshMidBuild, connReset, connLost, abandonedWorker, crossNode, movedUnreachable}
+
+// movedUnreachable: a new master joins, takes the victim slots, and cannot be reached from where
+// the tool runs (its listener refuses connections: an announced address that is not routable from
+// the tool's host).  The old owners answer MOVED to it.  Whatever the tool does with a redirect
+// it cannot follow, it must not count the command as done.
+const movedUnreachable = "moved-to-unreachable"
 
 // crossNode: no topology change at all.  The stream (a standalone source's) carries one two-key
 // DEL / UNLINK / MSET whose keys live in slots of two different nodes: a command no node of the
@@ -144,6 +150,10 @@ func genCase(i int, r *rand.Rand) caseCfg {
 		c.Txn = false
 		c.NCmds = 20 + r.Intn(60)
 	}
+	if c.Sched == movedUnreachable {
+		c.Txn = false
+		c.NCmds = 60 + r.Intn(120)
+	}
 	if c.Sched == abandonedWorker {
 		// a batch spanning two nodes exists only behind the non-transactional sender (a
 		// transactional one talks to a single shard), and only the blocking one runs node
@@ -194,6 +204,7 @@ func main() {
 	run.Assume("schedule conn-lost-before-reply (connection fault, edge of the quantifier): a node that already served earlier node batches of this client executes a complete small pipelined node batch (2–8 non-idempotent writes, one TCP segment) and closes the connection without having written a reply; later connections are served normally. Expected: reported connection error, nothing applied twice in transactional mode")
 	run.Assume("schedule abandoned-node-worker (blocking non-transactional sender; connection fault, edge of the quantifier): in one batch spanning two nodes, node X closes the connection on the first request of its share and node Y executes the first command of its share and then stops serving that connection; the reported failure is followed by the tool's restart sequence (bookkeeping, StartPoint, Send from the stored position) without waiting for the double to go idle; Y's stall ends when the restarted run has applied a newer write to Y's key (or, where no restart can happen meanwhile, after 2 s — a fallback that decides nothing); connections are attributed to the run during which they were opened")
 	run.Assume("schedule cross-node-command (non-transactional senders; no topology change): the stream carries one two-key DEL / UNLINK / MSET whose keys are owned by two different nodes; in two of three cases everything before it has been applied when it is handed out and the source is silent behind it for three periods of the sender's slowest ticker. No node can execute it (the double would answer MOVED/CROSSSLOT); a run that ends with a reported error is the tool's documented answer, a run that goes on must not have stored a position behind it")
+	run.Assume("schedule moved-to-unreachable (non-transactional senders; a connection fault at the edge of the quantifier): a new master joins, takes the victim slots and refuses connections from the tool (listener closed: an announced address the tool's host cannot reach); the old owners answer MOVED to it. Expected: a reported error; never an acknowledged batch with a position stored behind a command that no node executed")
 	run.Assume("quiescence = the sender stored the stream's end offset as resume position (it consumed every item and flushed its queue) and 4 keep-alive PING batches were served afterwards (at most 3 batches are in flight behind the dispatcher)")
 
 	harness.Parallel(n, 16, func(i int) {
@@ -833,6 +844,15 @@ func installSchedule(r *rand.Rand, cc caseCfg, cl *fakeredis.Cluster, victims []
 				}
 			}
 		}
+	case movedUnreachable:
+		at := frac(0.1, 0.5)
+		cl.At(at, func(t *fakeredis.Topo) {
+			n := t.AddNode()
+			t.Unreachable(n)
+			for _, v := range victims {
+				t.MigrateSlot(v.slot, n)
+			}
+		})
 	case "node-added":
 		at := frac(0.1, 0.6)
 		cl.At(at, func(t *fakeredis.Topo) {
